@@ -238,6 +238,7 @@ def f_default(name, unyt):
 
 
 def _world_cfg(unyt):
+    import numpy as np
     from unyt import Unit, unyt_array, unyt_quantity
     from unyt.unit_registry import UnitRegistry
     import unyt.dimensions as D
@@ -274,8 +275,19 @@ def _world_cfg(unyt):
     before = set(vars(_u))
     define_unit("c13probeunit", (2.0, "m"), registry=rc, prefixable=True)
     exports_custom = (set(vars(_u)) != before) or ("c13probeunit" in DR.lut)
+    # the process-wide caches of the unit rules: two registries with IDENTICAL contents (equal-looking units);
+    # arithmetic inside the second one after the same arithmetic inside the first
+    r1, r2 = UnitRegistry(), UnitRegistry()
+    leaks = False
+    for op in (lambda a, b: a * b, lambda a, b: a / b, lambda a, b: a + 2 * a, lambda a, b: np.sqrt(a), lambda a, b: a**2,
+               lambda a, b: np.maximum(a, a), lambda a, b: 1 / a):
+        for r in (r1, r2):
+            a, b = unyt_array([1.0, 2.0], "km", registry=r), unyt_quantity(3.0, "hr", registry=r)
+            res = op(a, b)
+            if getattr(res, "units", None) is not None and res.units.registry is not r:
+                leaks = True
     return dict(cachesExplicit=bool(caches_explicit), mixedUsesLeft=bool(uses_left), mixedWritesTable=bool(writes_table),
-                defineUnitLeaks=bool(exports_custom))
+                defineUnitLeaks=bool(exports_custom), ruleCacheLeaks=bool(leaks))
 
 
 def _default_refuses(unyt):
@@ -340,7 +352,10 @@ def generate(X):
         + f"def mixedUsesLeft : Bool := {b(wc['mixedUsesLeft'])}\n"
         + f"def mixedWritesTable : Bool := {b(wc['mixedWritesTable'])}\n"
         + "/-- `define_unit(…, registry=<custom>)` set an attribute on the `unyt` module or wrote the default table -/\n"
-        + f"def defineUnitLeaks : Bool := {b(wc['defineUnitLeaks'])}\n\n"
+        + f"def defineUnitLeaks : Bool := {b(wc['defineUnitLeaks'])}\n"
+        + "/-- arithmetic inside one of two registries with identical contents returned units of the OTHER one\n"
+        + "    (a cached unit rule keyed without the registry) -/\n"
+        + f"def ruleCacheLeaks : Bool := {b(wc['ruleCacheLeaks'])}\n\n"
         + "/-- `default_unit_registry.modify/remove` raise TypeError and leave table and memo alone -/\n"
         + f"def defaultRefuses : Bool := {b(refuses)}\n\n"
         + "end Unyt.Generated\n"
